@@ -59,12 +59,18 @@ def run(chk, args):
                        "reader fragments (any directive other than All); every writer/budget/allocation case counts")
     chk.assumptions += ["io.ReadFull/io.CopyN of the Go standard library are atomic steps of the decoder model",
                         "body bytes are seeded pseudo-random (content classes are not enumerated by TLC)"]
+    # 3. the same contract at the call sites (client ReadFrom/WriteTo, server turbotunnelMode): lib/checks/c09_callsites.py
+    from checks import c09_callsites
+    c09_callsites.run_callsite_part(chk, args)
 
 
 def replay(chk, drv, path):
     import json
     with open(path) as fh:
         rp = json.load(fh)["replay"]
+    if rp.get("part") == "callsites":
+        from checks import c09_callsites
+        return c09_callsites.replay(chk, rp)
     mode = rp["args"][0]
     if rp.get("case") is None:
         vlib.drive_cases(chk, drv, ["extra"], None, tag="replay")
